@@ -228,6 +228,40 @@ pub fn c07(tier: Tier) -> i32 {
             ));
         }
     }
+    // a subscription so large that the balance comes close to the cap of the counter: a renewal that does not fit
+    // is refused as a whole, nothing is credited in part
+    {
+        let mut a = Alphabet::basic();
+        a.users = vec![1];
+        a.disps = vec![1];
+        a.blobs = vec![(Blob::Valid, false)];
+        a.max_registers_per_user = 3;
+        a.max_adds = 2;
+        a.mine_empty = false;
+        a.mine_mempool = false;
+        a.mine_dispute = false;
+        a.max_deviations = 0;
+        models.push((
+            TowerModel { label: "C07/slots=u32::MAX-1".into(), cfg: cfg(u32::MAX - 1, 400, 6), seed: vec![], alphabet: a, props: vec!["C07"], probe: true, forgery: None },
+            4,
+        ));
+    }
+    // slots of a tracker that is dropped because the node rejects its re-submission are forfeited, not refunded:
+    // the penalty misses six confirmations while the node holds a conflicting spend instead
+    {
+        let mut sd = seed("S3");
+        sd.extend(vec![Ev::Evict(TxName::P(1)), Ev::External(TxName::PAlt(1))]);
+        for _ in 0..7 {
+            sd.push(Ev::MineP(MineSel::Empty));
+        }
+        let mut a = Alphabet::basic();
+        a.max_adds = 0;
+        a.max_registers_per_user = 0;
+        a.mine_dispute = false;
+        a.mine_mempool = false;
+        a.mine_empty = false;
+        models.push((TowerModel { label: "C07/rejected-rebroadcast".into(), cfg: cfg(3, 400, 6), seed: sd, alphabet: a, props: vec!["C07"], probe: true, forgery: None }, 0));
+    }
     run_models(&run, models, budget(tier, 40, 600));
     run.finish()
 }
